@@ -17,7 +17,7 @@
 from __future__ import annotations
 
 import ast
-from typing import Any, List, Optional, Set, Tuple
+from typing import Any, Dict, List, Optional, Set, Tuple
 
 from engine.cfg import build_cfg, calls_in_stmt
 from engine.model import AnalysisError, Program, dotted, walk_no_nested
@@ -120,6 +120,28 @@ def run(ctx: Any, prog: Program) -> None:
     replace_nodes = [n for n in g.nodes if n.kind in ('stmt', 'return') and has_call(n, 'replace', '_temp_name')]
     unlink_nodes = [n for n in g.nodes if n.kind in ('stmt', 'return') and has_call(n, 'unlink')]
     close_nodes = [n for n in g.nodes if n.kind in ('stmt', 'return') and (has_call(n, '__exit__', 'temp') or has_call(n, 'close', 'temp'))]
+    # the commit must be ONE atomic rename.  Anything that can fall back to copying (shutil.move, copyfile, writing the bytes over) fills the
+    # destination in place: a fault or kill in the middle leaves neither the old nor the new contents
+    for c in ast.walk(ex):
+        if isinstance(c, ast.Call) and (dotted(c.func) or '').split('.')[-1] in ('move', 'copy', 'copy2', 'copyfile', 'copyfileobj', 'copytree') and 'shutil' in (dotted(c.func) or '') \
+                and any('filename' in ast.unparse(a) for a in c.args):
+            ctx.check('C12.W2', False, core, c, f'`{ast.unparse(c)[:70]}` commits with {dotted(c.func)}(), which silently falls back to copying over the destination when the rename fails (and moves INTO an existing directory): '
+                      'the destination is then rewritten in place instead of being replaced atomically', func='AtomicWriter.__exit__', text='commit is an atomic rename')
+    # who may commit: __exit__ with a None exception type is the with-statement saying "the body finished".  A finalizer that gets there
+    # (directly or through close()) commits a half-written temp file when an abandoned writer is garbage collected
+    aw_calls: Dict[str, Set[str]] = {m_: {c.func.attr for c in ast.walk(f_) if isinstance(c, ast.Call) and isinstance(c.func, ast.Attribute) and dotted(c.func.value) == 'self'} for m_, f_ in aw.items()}
+    committers = {m_ for m_, f_ in aw.items() if any(isinstance(c, ast.Call) and dotted(c.func) == 'self.__exit__' and c.args and isinstance(c.args[0], ast.Constant) and c.args[0].value is None for c in ast.walk(f_))}
+    reach: Set[str] = set()
+    todo = ['__del__'] if '__del__' in aw else []
+    while todo:
+        m_ = todo.pop()
+        if m_ in reach:
+            continue
+        reach.add(m_)
+        todo += [x for x in aw_calls.get(m_, ()) if x in aw]
+    bad = sorted(reach & committers)
+    ctx.check('C12.W2', not bad, core, aw[bad[0]] if bad else ex, (f'AtomicWriter.__del__ reaches {bad[0]}(), which calls self.__exit__(None, ...): a writer that is dropped while still open (an error before the commit, no `with`) '
+              'renames its partial temp file over the destination - an abandoned write must leave the previous contents') if bad else 'no finalizer commits', func='AtomicWriter', text='only a completed with-body commits')
     if len({id(n.stmt) for n in replace_nodes}) != 1:
         raise AnalysisError(f'AtomicWriter.__exit__: expected exactly one replace() statement, found {len(replace_nodes)}')
     # W2a: on every path to replace, either the `self.temp is not None` test was false or a close node was passed
@@ -332,6 +354,9 @@ def run(ctx: Any, prog: Program) -> None:
 
 
 MUTANTS = [
+    {'id': 'commit_through_shutil_move', 'file': '__init__.py', 'find': "                self._temp_name.replace(self.filename)\n                committed = True", 'replace': "                import shutil\n                shutil.move(self._temp_name, self.filename)\n                committed = True", 'expect': 'C12.W2'},
+    {'id': 'finalizer_commits', 'file': '__init__.py', 'find': "        return None  # Don't cancel the exception.\n", 'replace': "        return None  # Don't cancel the exception.\n\n    def close(self) -> None:\n        if self.temp is not None:\n            self.__exit__(None, None, None)\n\n    def __del__(self) -> None:\n        if getattr(self, 'temp', None) is not None:\n            self.close()\n", 'expect': 'C12.W2'},
+    {'id': 'explicit_close_only', 'file': '__init__.py', 'find': "        return None  # Don't cancel the exception.\n", 'replace': "        return None  # Don't cancel the exception.\n\n    def close(self) -> None:\n        if self.temp is not None:\n            self.__exit__(None, None, None)\n", 'expect': None},
     {'id': 'direct_open_for_new_file', 'file': 'bsp.py', 'find': "        with AtomicWriter(filename or self.filename, is_bytes=True) as file:", 'replace': "        dest = filename or self.filename\n        out: Any = AtomicWriter(dest, is_bytes=True) if os.path.exists(dest) else open(dest, 'wb')\n        with out as file:", 'expect': 'C12.W5'},
     {'id': 'atomic_writer_via_local', 'file': 'bsp.py', 'find': "        with AtomicWriter(filename or self.filename, is_bytes=True) as file:", 'replace': "        out = AtomicWriter(filename or self.filename, is_bytes=True)\n        with out as file:", 'expect': None},
     {'id': 'fallible_call_after_tempfile', 'file': '__init__.py', 'find': "        self.make_tempfile()\n        assert self.temp is not None\n", 'replace': "        self.make_tempfile()\n        assert self.temp is not None\n        try:\n            _os.chmod(self.temp.name, _os.stat(self.filename).st_mode & 0o777)\n        except FileNotFoundError:\n            pass\n", 'expect': 'C12.W3'},
